@@ -29,6 +29,7 @@ import (
 	"github.com/mandykoh/prism/ciexyz"
 	"github.com/mandykoh/prism/displayp3"
 	"github.com/mandykoh/prism/meta/autometa"
+	"github.com/mandykoh/prism/meta/icc"
 	"github.com/mandykoh/prism/prophotorgb"
 	"github.com/mandykoh/prism/srgb"
 )
@@ -211,6 +212,69 @@ var targets = []target{
 		c := displayp3.EncodeColor(color.RGBA64{R: uint16(a * 200), G: uint16(a * 100), B: 77, A: 65535})
 		return uint32(c.R)<<16 | uint32(c.B)
 	}},
+}
+
+// Functions that hold no tables today: the first conversions of a process race here too (a
+// table or derived matrix introduced behind them must be published properly).
+func init() {
+	x3 := func(c ciexyz.Color) uint32 {
+		return f32bits(c.X)*31 + f32bits(c.Y)*17 + f32bits(c.Z)
+	}
+	lin := func(a int) (float32, float32, float32) {
+		return float32(a%7) / 7, float32(a%5) / 5, float32(a%3) / 3
+	}
+	targets = append(targets,
+		target{"srgb.xyz", func(a int) uint32 {
+			r, g, b := lin(a)
+			c := srgb.ColorFromLinear(r, g, b).ToXYZ()
+			d := srgb.ColorFromXYZ(c)
+			return x3(c) ^ f32bits(d.R)
+		}},
+		target{"adobergb.xyz", func(a int) uint32 {
+			r, g, b := lin(a)
+			c := adobergb.ColorFromLinear(r, g, b).ToXYZ()
+			d := adobergb.ColorFromXYZ(c)
+			return x3(c) ^ f32bits(d.G)
+		}},
+		target{"prophotorgb.xyz", func(a int) uint32 {
+			r, g, b := lin(a)
+			c := prophotorgb.ColorFromLinear(r, g, b).ToXYZ()
+			d := prophotorgb.ColorFromXYZ(c)
+			return x3(c) ^ f32bits(d.B)
+		}},
+		target{"displayp3.xyz", func(a int) uint32 {
+			r, g, b := lin(a)
+			c := displayp3.ColorFromLinear(r, g, b).ToXYZ()
+			d := displayp3.ColorFromXYZ(c)
+			return x3(c) ^ f32bits(d.R)
+		}},
+		target{"ciexyz.lab", func(a int) uint32 {
+			r, g, b := lin(a)
+			l := ciexyz.Color{X: r, Y: g + 0.01, Z: b}.ToLAB(ciexyz.D50)
+			c := ciexyz.ColorFromLAB(l, ciexyz.D65)
+			return f32bits(l.L)*13 + f32bits(l.A+200)*7 + f32bits(l.B+200) ^ x3(c)
+		}},
+		target{"ciexyz.adapt", func(a int) uint32 {
+			ws := []ciexyy.Color{ciexyy.D50, ciexyy.D65, {X: 0.31, Y: 0.32, YY: 1}, {X: 0.4, Y: 0.4, YY: 1}}
+			ad := ciexyz.AdaptBetweenXYYWhitePoints(ws[a%4], ws[(a/4+1)%4])
+			return x3(ad.Apply(ciexyz.Color{X: 0.3, Y: 0.4, Z: 0.5}))
+		}},
+		target{"ciexyz.primaries", func(a int) uint32 {
+			w := []ciexyy.Color{ciexyy.D50, ciexyy.D65}[a%2]
+			m := ciexyz.TransformToXYZForXYYPrimaries(srgb.PrimaryRed, srgb.PrimaryGreen, srgb.PrimaryBlue, w)
+			n := ciexyz.TransformFromXYZForXYYPrimaries(adobergb.PrimaryRed, adobergb.PrimaryGreen, adobergb.PrimaryBlue, w)
+			return uint32(int64(m[0][0]*1e6)) ^ uint32(int64(n[1][1]*1e6))
+		}},
+		target{"icc.strings", func(a int) uint32 {
+			s := icc.Version{Major: byte(a % 8), MinorAndRev: byte(a * 16)}.String() + icc.DeviceClass(0x6D6E7472+uint32(a%2)).String() +
+				icc.ColorSpace(0x52474220).String() + icc.Signature(uint32(a)<<8|0x61).String()
+			var h uint32
+			for _, ch := range []byte(s) {
+				h = h*31 + uint32(ch)
+			}
+			return h
+		}},
+	)
 }
 
 func findTarget(name string) *target {
